@@ -106,6 +106,12 @@ pub struct RunOut {
 }
 
 pub trait Compiled {
+    /// Structural hash of the built circuit (ops with their witness ids and constants, public /
+    /// private input rows): equal fingerprints = the same circuit. Used by C15 to tell whether a
+    /// builder that accepted a mutant produced exactly the circuit of the honest shape.
+    fn fingerprint(&self) -> u64 {
+        0
+    }
     fn flat_lens(&self) -> (usize, usize);
     fn public_rows(&self) -> Vec<u32>;
     fn private_rows(&self) -> Vec<u32>;
@@ -223,6 +229,41 @@ pub mod cfgs {
     pub mod bb {
         pub use p3_test_utils::baby_bear_params::*;
         pub const CFG_NAME: &str = "babybear-d4-w16";
+        pub const CAP_HEIGHT: usize = 0;
+        pub const ZK: bool = false;
+        pub const FRI_PREFIX: &str = "";
+        pub fn perm_cfg() -> p3_recursion::Poseidon2Config {
+            p3_recursion::Poseidon2Config::BABY_BEAR_D4_W16
+        }
+        pub fn default_perm() -> Perm {
+            default_babybear_poseidon2_16()
+        }
+        pub fn enable_ops(cb: &mut p3_circuit::CircuitBuilder<Challenge>) {
+            cb.enable_poseidon2_perm::<p3_poseidon2_circuit_air::BabyBearD4Width16, _>(
+                p3_circuit::ops::generate_poseidon2_trace::<Challenge, p3_poseidon2_circuit_air::BabyBearD4Width16>,
+                default_perm(),
+            );
+            cb.enable_recompose::<F>(p3_circuit::ops::generate_recompose_trace::<F, Challenge>);
+        }
+        pub fn new_builder() -> p3_circuit::CircuitBuilder<Challenge> {
+            let mut cb = p3_circuit::CircuitBuilder::<Challenge>::new();
+            enable_ops(&mut cb);
+            cb
+        }
+        pub type NlBackend = p3_recursion::FriRecursionBackendForExt<D, WIDTH, RATE, p3_recursion::Poseidon2Config>;
+        pub fn nl_backend() -> NlBackend {
+            p3_recursion::FriRecursionBackend::<WIDTH, RATE, p3_recursion::Poseidon2Config>::new(perm_cfg())
+                .for_extension_degree::<D>()
+        }
+        include!("plain_pcs.rs");
+        include!("cfg_body.rs");
+    }
+
+    /// (Merkle caps of height 2: four roots per commitment) BabyBear, degree-4 binomial extension, Poseidon2 width 16.
+    pub mod bbc {
+        pub use p3_test_utils::baby_bear_params::*;
+        pub const CFG_NAME: &str = "babybear-d4-w16-cap2";
+        pub const CAP_HEIGHT: usize = 2;
         pub const ZK: bool = false;
         pub const FRI_PREFIX: &str = "";
         pub fn perm_cfg() -> p3_recursion::Poseidon2Config {
@@ -256,6 +297,7 @@ pub mod cfgs {
     pub mod kb {
         pub use p3_test_utils::koala_bear_params::*;
         pub const CFG_NAME: &str = "koalabear-d4-w16";
+        pub const CAP_HEIGHT: usize = 0;
         pub const ZK: bool = false;
         pub const FRI_PREFIX: &str = "";
         pub fn perm_cfg() -> p3_recursion::Poseidon2Config {
@@ -289,6 +331,7 @@ pub mod cfgs {
     pub mod kb5 {
         pub use p3_test_utils::koala_bear_quintic_params::*;
         pub const CFG_NAME: &str = "koalabear-quintic-w16";
+        pub const CAP_HEIGHT: usize = 0;
         pub const ZK: bool = false;
         pub const FRI_PREFIX: &str = "";
         pub fn perm_cfg() -> p3_recursion::Poseidon2Config {
@@ -323,6 +366,7 @@ pub mod cfgs {
     pub mod gl {
         pub use p3_test_utils::goldilocks_params::*;
         pub const CFG_NAME: &str = "goldilocks-d2-w8";
+        pub const CAP_HEIGHT: usize = 0;
         pub const ZK: bool = false;
         pub const FRI_PREFIX: &str = "";
         pub fn perm_cfg() -> p3_recursion::Poseidon2Config {
@@ -363,6 +407,7 @@ pub mod cfgs {
         pub use p3_test_utils::koala_bear_params::{BasedVectorSpace, PrimeCharacteristicRing};
         use p3_test_utils::koala_bear_params::default_koalabear_poseidon2_16;
         pub const CFG_NAME: &str = "koalabear-d4-w16-zk";
+        pub const CAP_HEIGHT: usize = 0;
         pub const ZK: bool = true;
         pub const FRI_PREFIX: &str = "[1]";
         pub fn perm_cfg() -> p3_recursion::Poseidon2Config {
@@ -395,6 +440,40 @@ pub mod cfgs {
         pub use p3_test_utils::koala_bear_params::{BasedVectorSpace, Field, PrimeCharacteristicRing};
         use p3_test_utils::koala_bear_params::default_koalabear_poseidon2_16;
         pub const CFG_NAME: &str = "koalabear-d4-w16-zk-hidingmmcs";
+        pub const CAP_HEIGHT: usize = 0;
+        pub const ZK: bool = true;
+        pub const FRI_PREFIX: &str = "[1]";
+        pub fn perm_cfg() -> p3_recursion::Poseidon2Config {
+            p3_recursion::Poseidon2Config::KOALA_BEAR_D4_W16
+        }
+        pub fn default_perm() -> Perm {
+            default_koalabear_poseidon2_16()
+        }
+        pub fn enable_ops(cb: &mut p3_circuit::CircuitBuilder<Challenge>) {
+            cb.enable_poseidon2_perm::<p3_poseidon2_circuit_air::KoalaBearD4Width16, _>(
+                p3_circuit::ops::generate_poseidon2_trace::<Challenge, p3_poseidon2_circuit_air::KoalaBearD4Width16>,
+                default_perm(),
+            );
+            cb.enable_recompose::<F>(p3_circuit::ops::generate_recompose_trace::<F, Challenge>);
+        }
+        pub fn new_builder() -> p3_circuit::CircuitBuilder<Challenge> {
+            let mut cb = p3_circuit::CircuitBuilder::<Challenge>::new();
+            enable_ops(&mut cb);
+            cb
+        }
+        include!("hiding_mmcs_pcs.rs");
+        include!("cfg_body.rs");
+    }
+
+    /// (Merkle caps of height 2: four roots per commitment) KoalaBear D4, hiding FRI PCS over *hiding* (salted) Merkle MMCSs.
+    pub mod kbzkhc {
+        pub use p3_test_utils::koala_bear_params::{
+            Challenge, Challenger, D, DIGEST_ELEMS, Dft, F, MyCompress, MyHash, Perm, RATE, WIDTH,
+        };
+        pub use p3_test_utils::koala_bear_params::{BasedVectorSpace, Field, PrimeCharacteristicRing};
+        use p3_test_utils::koala_bear_params::default_koalabear_poseidon2_16;
+        pub const CFG_NAME: &str = "koalabear-d4-w16-zk-hidingmmcs-cap2";
+        pub const CAP_HEIGHT: usize = 2;
         pub const ZK: bool = true;
         pub const FRI_PREFIX: &str = "[1]";
         pub fn perm_cfg() -> p3_recursion::Poseidon2Config {
@@ -464,6 +543,11 @@ pub fn all_shapes(thorough: bool) -> Vec<Box<dyn Shape>> {
         // a commitment round (preprocessed) shorter than the tallest trace: reduced query index
         v.push(cfgs::bb::batch(vec![TAir::Add { rows: 16 }, TAir::Sub { rows: 8 }]));
         v.push(cfgs::kbzkh::batch(vec![TAir::Add { rows: 32 }, TAir::Sub { rows: 8 }]));
+        // Merkle caps with more than one root (cap height 2): cap entries are packed root by root
+        v.push(cfgs::bbc::uni(mulp));
+        v.push(cfgs::bbc::batch(vec![mulp, add, sub]));
+        v.push(cfgs::bbc::circ(6));
+        v.push(cfgs::kbzkhc::batch(vec![add64]));
     }
     if thorough {
         // larger instances: more FRI phases, wider traces, more tables rows, more quotient chunks
@@ -539,6 +623,8 @@ pub fn probe_shape(spec: &str) -> Option<Box<dyn Shape>> {
     }
     match parts[0] {
         "bb" => mk!(bb),
+        "bbc" => mk!(bbc),
+        "kbzkhc" => mk!(kbzkhc),
         "kb" => mk!(kb),
         "kb5" => mk!(kb5),
         "gl" => mk!(gl),
